@@ -14,8 +14,8 @@ from mc import refalg as R
 PROPERTY = "C07"
 LEVEL = "model_checking"
 
-SHAPES = ["sum", "weighted", "zero", "cancel", "nested", "scaled", "dd", "nn", "three"]
-POINTS = ["x0", "x1", "x0c", "cancel", "combo", "combo_rev", "last"]
+SHAPES = ["sum", "weighted", "zero", "cancel", "nested", "scaled", "dd", "nn", "three", "double"]
+POINTS = ["x0", "x1", "x0c", "cancel", "combo", "combo_rev", "x0z", "last"]
 OPS_FULL = ["oracle", "gradient", "value", "call", "stat", "fixed", "prox", "els", "iprox", "epssub", "bprox"]
 OPS_RED = ["oracle", "value", "stat", "prox"]
 TOL = Fraction(1, 10 ** 12)
@@ -36,6 +36,7 @@ class World(object):
         elif shape == "cancel": F = f1 + f2 - f2
         elif shape == "nested": F = (f1 + f2) + f1
         elif shape == "scaled": F = 3 * (f1 / 3)
+        elif shape == "double": F = 2 * f1                      # a multiple of ONE term
         elif shape == "dd":
             f3 = p.declare_function(SmoothConvexFunction, L=2.)
             self.leaves["f3"] = f3
@@ -56,7 +57,7 @@ class World(object):
         self.funcs = dict(self.leaves, F=F)
         # the weights the user wrote, independent of the library's own bookkeeping
         self.weights = {"sum": {"f1": 1, "f2": 1}, "weighted": {"f1": -1, "f2": 2}, "zero": {"f1": 1},
-                        "cancel": {"f1": 1}, "nested": {"f1": 2, "f2": 1}, "scaled": {"f1": 1},
+                        "cancel": {"f1": 1}, "nested": {"f1": 2, "f2": 1}, "scaled": {"f1": 1}, "double": {"f1": 2},
                         "dd": {"f1": 1, "f3": 1}, "nn": {"f2": 1, "f4": 1}, "three": {"f1": 1, "f2": 2, "f4": 1}}[shape]
         self.differentiable = {"f1": True, "f2": False, "f3": True, "f4": False,
                                "F": all(n in ("f1", "f3") for n in self.weights)}
@@ -64,7 +65,8 @@ class World(object):
         x1 = p.set_initial_point()
         # "x0c" and "cancel" denote x0 through other objects: a scaled copy, and a subtraction in which a leaf cancels exactly
         self.points = {"x0": x0, "x1": x1, "x0c": 1 * x0, "cancel": x1 - (x1 - x0), "combo": x0 - 0.5 * x1,
-                       "combo_rev": -0.5 * x1 + x0}       # the same point as "combo", its leaves introduced in the other order
+                       "combo_rev": -0.5 * x1 + x0,       # the same point as "combo", its leaves introduced in the other order
+                       "x0z": x0 - 0 * x1}                # x0 again: a zero step along a leaf x0 does not contain
         self.returned = {}     # (fname, frozen point decomposition) -> list of ('g'|'v', canonical)
         self.declared_stationary = []   # (fname, point object)
         self.log = []
